@@ -1,7 +1,7 @@
 (* Props_C08.v — C08: climatology flags follow the last matching member; unmatched points are UNKNOWN.
    Only statements, `exact <lemma>` and Print Assumptions.
    (statements written out by tools/mk_props.py from the lemmas they restate) *)
-From IoosQc Require Import Base Generated Calendar Climatology ClimatologyProofs.
+From IoosQc Require Import Base Generated Calendar Climatology ClimatologyProofs Skel SkelBase SkelP_clim.
 
 
 (* for EVERY member list (any number, overlapping, every period kind, with/without fail and depth spans, spans in either order), every series, time axis and depth pattern — no hypothesis: the operational model of ClimatologyConfig.check (per member: time index, depth index, the three ordered overwrites FAIL / SUSPECT / GOOD; members with a depth span skipped when no depth is present; MISSING written before and after the loop) equals the specification 'the LAST matching member classifies the value, UNKNOWN if none, MISSING if the value is missing' *)
@@ -199,6 +199,29 @@ Theorem C08_calendar_1968_2040 :
   forallb day_check (zrange D1968 26664) = true.
 Proof. exact (@calendar_days_1968_2040). Qed.
 Print Assumptions C08_calendar_1968_2040.
+
+(* TRANSLATOR TIE: the flag-assignment skeleton generated from the CURRENT source of ClimatologyConfig.check - MISSING before the member loop, the three guarded assignments of one iteration (values_idx & fail_idx -> FAIL, values_idx & ~fail_idx & suspect_idx -> SUSPECT, values_idx & ~fail_idx & ~suspect_idx -> GOOD, skipped when the member is), MISSING after the loop - folded over the members in order, yields exactly the model's flags *)
+Theorem C08_source_skeleton :
+  forall (config : list member) (xs : list obs) (ts : list Z) (zs : list obs),
+         clim_model config xs ts zs =
+         Flags
+           (run_steps (env_clim_outer xs) skel_climatology_check_post
+              (fold_left
+                 (fun (acc : list flag) (m : member) =>
+                  run_steps (env_clim_member m xs ts zs) skel_climatology_check_member acc)
+                 (map add config)
+                 (run_steps (env_clim_outer xs) skel_climatology_check_pre
+                    (all_flags (length xs) UNKNOWN)))).
+Proof. exact (@skel_clim_model). Qed.
+Print Assumptions C08_source_skeleton.
+
+(* one iteration of the member loop: generated skeleton = clim_step *)
+Theorem C08_source_skeleton_member :
+  forall (m : member) (xs : list obs) (ts : list Z) (zs : list obs) (acc : list flag),
+         clim_step xs ts zs acc m =
+         run_steps (env_clim_member m xs ts zs) skel_climatology_check_member acc.
+Proof. exact (@skel_clim_member). Qed.
+Print Assumptions C08_source_skeleton_member.
 
 Theorem C08_assign_order : assign_order_climatology_check = [UNKNOWN; MISSING; FAIL; SUSPECT; GOOD; MISSING].
 Proof. reflexivity. Qed.
